@@ -46,6 +46,17 @@ pub struct MapSpec {
   pub debug_id: Option<String>,
 }
 
+type MapKey = (String, Vec<String>, Vec<String>, Vec<String>);
+thread_local! {
+  static MAP_POOL: std::cell::RefCell<Option<Vec<(MapKey, SourceMap)>>> = const { std::cell::RefCell::new(None) };
+}
+
+/// Turn sharing of map tables between equal-table maps on (with an empty
+/// pool) or off for the builds that follow on this thread.
+pub fn share_map_tables(on: bool) {
+  MAP_POOL.with(|p| *p.borrow_mut() = if on { Some(Vec::new()) } else { None });
+}
+
 impl MapSpec {
   pub fn mappings_string(&self) -> String {
     match &self.raw_mappings {
@@ -55,6 +66,31 @@ impl MapSpec {
   }
 
   pub fn build(&self) -> SourceMap {
+    // with table sharing on (see `share_map_tables`), a map whose four
+    // tables equal those of a map built earlier is derived from that map the
+    // way programs do it: clone() and then the setters for file / sourceRoot
+    // / debugId, so both values share their table allocations
+    let key = (self.mappings_string(), self.sources.clone(), self.contents.clone(), self.names.clone());
+    let shared = MAP_POOL.with(|p| {
+      let p = p.borrow();
+      p.as_ref().and_then(|v| v.iter().find(|(k, _)| *k == key).map(|(_, m)| m.clone()))
+    });
+    if let Some(mut map) = shared {
+      map.set_source_root(self.source_root.clone());
+      map.set_file(self.file.clone());
+      map.set_debug_id(self.debug_id.clone());
+      return map;
+    }
+    let map = self.build_fresh();
+    MAP_POOL.with(|p| {
+      if let Some(v) = p.borrow_mut().as_mut() {
+        v.push((key, map.clone()));
+      }
+    });
+    map
+  }
+
+  fn build_fresh(&self) -> SourceMap {
     let mut map = SourceMap::new(
       self.mappings_string(),
       self.sources.clone(),
